@@ -560,6 +560,11 @@ impl From<u8> for Natural {
 impl Add for Natural {
     type Output = Self;
     fn add(mut self, mut rhs: Self) -> Self {
+        // `Self::NAN` has `len == 0` as well, so check for NaN before handling
+        // zero: a computation error must not vanish.
+        if self.is_nan() || rhs.is_nan() {
+            return Self::NAN;
+        }
         if rhs.len == 0 {
             return self;
         }
